@@ -50,7 +50,7 @@ theorem executePlan_mem (s : Store) (p : Plan) (id : Bytes) (h : id ∈ executeP
     | none => simp [hg] at hm
     | some e => exact ⟨e, rfl, by simpa [hg] using hm.2⟩
 
-theorem planFilter_filter (f : Filter) (dl : Option Nat) (p : Plan) (h : planFilter f dl = some p) :
+theorem planFilter_filter (f : Filter) (dl : Option Nat) (ml : Nat) (p : Plan) (h : planFilter f dl ml = some p) :
     p.filter = f := by
   unfold planFilter at h
   cases hs : planShape f with
@@ -60,11 +60,11 @@ theorem planFilter_filter (f : Filter) (dl : Option Nat) (p : Plan) (h : planFil
 /-- **C01 (LMDB)** — every event delivered for a filter is a stored record, filed under the id
     it is delivered as, and matches the filter under NIP-01; this holds for every store coherent
     in the sense of C10 (hence every reachable one) and every plan the planner makes. -/
-theorem C01_kv_sound (s : Store) (hc : Coh s) (f : Filter) (dl : Option Nat) (p : Plan)
-    (hp : planFilter f dl = some p) (id : Bytes) (h : id ∈ executePlan s p) :
+theorem C01_kv_sound (s : Store) (hc : Coh s) (f : Filter) (dl : Option Nat) (ml : Nat) (p : Plan)
+    (hp : planFilter f dl ml = some p) (id : Bytes) (h : id ∈ executePlan s p) :
     ∃ e, getEvent s id = some e ∧ e.id = id ∧ matchesSpec false f e = true := by
   obtain ⟨e, hg, hr⟩ := executePlan_mem s p id h
-  rw [planFilter_filter f dl p hp] at hr
+  rw [planFilter_filter f dl ml p hp] at hr
   exact ⟨e, hg, getEvent_id s hc id e hg, residual_sound f e hr⟩
 
 /-- what is stored was handed to the writer as an `add` task -/
